@@ -56,11 +56,18 @@ def assign_canonical_labels(m: nx.Graph) -> dict[int, int]:
     """
 
     m_igraph = iGraph.from_networkx(m)
-    old_labels = m_igraph.vs["_nx_name"]
     partitions = m_igraph.vs[PARTITION]
-    canonical_labels = m_igraph.canonical_permutation(color=partitions)
+    canonical_permutation = m_igraph.canonical_permutation(color=partitions)
 
-    return dict(zip(old_labels, canonical_labels))
+    # Let igraph apply its own permutation vector (its index/value convention
+    # differs between igraph versions): the canonical label of a node is its
+    # position in the canonical form of the graph.
+    m_canonical = m_igraph.permute_vertices(canonical_permutation)
+
+    return {
+        old_label: canonical_label
+        for canonical_label, old_label in enumerate(m_canonical.vs["_nx_name"])
+    }
 
 
 def canonicalize_molecule(m: nx.Graph) -> nx.Graph:
